@@ -585,8 +585,11 @@ CPB_descr_get(CPB* self, PyObject* inst, PyObject* cls)
 {
     PyObject* implements;
 
-    if (self->_cls == NULL)
+    if (self->_cls == NULL) {
+        /* like ``self._cls`` in Python: never NULL without an exception */
+        PyErr_SetString(PyExc_AttributeError, "_cls");
         return NULL;
+    }
 
     if (cls == self->_cls) {
         if (inst == NULL) {
@@ -595,7 +598,11 @@ CPB_descr_get(CPB* self, PyObject* inst, PyObject* cls)
         }
 
         implements = self->_implements;
-        Py_XINCREF(implements);
+        if (implements == NULL) {
+            PyErr_SetString(PyExc_AttributeError, "_implements");
+            return NULL;
+        }
+        Py_INCREF(implements);
         return implements;
     }
 
